@@ -1,5 +1,5 @@
 """Rule registry: name -> callable(ctx, prop) -> RuleResult | [RuleResult]."""
-from . import trav, exh, backend, names, fields, compiler, memory, purity, determinism, patterns, unify
+from . import trav, exh, backend, names, fields, compiler, memory, purity, determinism, patterns, unify, provenance
 
 
 def _trav_scoped(classes, name):
@@ -52,6 +52,17 @@ RULES = {
     "REPLSCOPE": unify.rule_replscope,
     "CALLPRED": unify.rule_callpred,
     "HOLESIB": unify.rule_holesib,
+    "CFGMOD": provenance.rule_cfgmod,
+    "EQVGATE": provenance.rule_eqvgate,
+    "UFOWN": provenance.rule_ufown,
+    "EQVSHAPE": provenance.rule_eqvshape,
+    "NOPROV": provenance.rule_noprov,
+    "FWDPRESENT": provenance.rule_fwdpresent,
+    "FWDWALK": provenance.rule_fwdwalk,
+    "ANNOTONLY": provenance.rule_annotonly,
+    "PREDSONLY": provenance.rule_predsonly,
+    "PEVAL": provenance.rule_partialeval,
+    "TRAV@C19": _trav_scoped(["DoPartialEval"], "TRAV"),
     "BACKPIPE": backend.rule_backpipe,
     "PAREMIT": backend.rule_paremit,
     "PARCHECK": backend.rule_parcheck,
